@@ -283,8 +283,8 @@ func (t *MessageContainer) MarshalTL(e *tl.Encoder) error {
 	for _, msg := range *t {
 		e.PutLong(msg.MsgID)
 		e.PutInt(msg.SeqNo)
-		//       msgID        seqNo        len                object
-		e.PutInt(tl.LongLen + tl.WordLen + tl.WordLen + int32(len(msg.Msg)))
+		// bytes is length of message body only, without msg_id, seqno and bytes itself
+		e.PutInt(int32(len(msg.Msg)))
 		e.PutRawBytes(msg.Msg)
 	}
 	return e.CheckErr()
